@@ -699,7 +699,20 @@ fn codegen_fn_scale(units: &Vec<UnitDef>) -> TokenStream {
     for unit in units {
         if unit.scale.is_some() {
             let unit_ident = &unit.unit_ident;
-            let unit_scale: &syn::Lit = unit.scale.as_ref().unwrap();
+            // Pass the scale on as plain base-10 digits (no `_` separators,
+            // no type suffix), so that the literal conversion of every
+            // amount type (`as f64`, `Dec!`) accepts it.
+            let unit_scale: syn::Lit = match unit.scale.as_ref().unwrap() {
+                syn::Lit::Int(i) => syn::Lit::Int(syn::LitInt::new(
+                    i.base10_digits(),
+                    i.span(),
+                )),
+                syn::Lit::Float(f) => syn::Lit::Float(syn::LitFloat::new(
+                    f.base10_digits(),
+                    f.span(),
+                )),
+                other => other.clone(),
+            };
             code = quote!(
                 #code
                 Self::#unit_ident => Amnt!(#unit_scale),
